@@ -160,7 +160,7 @@ def run(tier, wd):
     rep.cov["distinct_nontrivial"] = len(lex_nontriv) + parse_nontriv
     rep.cov["drift_notes"] = drift
     rep.cov["exhaustive"] = True
-    rep.cov["rule"] = ("lexical: every string over 17 character classes up to length %d (TLC runs the scanner machine and the token grammar on each; two concrete "
+    rep.cov["rule"] = ("lexical: every string over 17 character classes up to length 4 (thorough: plus length %d over 13 classes) (TLC runs the scanner machine and the token grammar on each; two concrete "
                        "representatives per class go through lexer.Tokenize) + random strings of 5..24 symbols validated by TLC; syntactic: every sequence of <= %d "
                        "token kinds over 17 kinds (declared/undeclared variants), rendered with random blanks/tabs and leading blanks, compiled through Run; "
                        "non-trivial = at least two tokens / error not at the first character / well-formed or error behind the first token" % ((4, 4) if q else (5, 5)))
